@@ -1,3 +1,234 @@
-/- C07: property theorems (none yet). -/
+/-
+C07 — Close-on-context-done always stops a running guest.
+
+Full statement (the property): for EVERY guest program, on both engines, once the context is
+cancelled / its deadline passes / the module is closed, the running call returns promptly with the
+exit error of that cause and the module is closed afterwards.
+
+What is proved here, about the model `Wz.Model.Ctl` (tied to /repo by the structural and behavioural
+correspondence of harness hc07 and by the regenerated constants `Wz.Gen.Close`):
+
+* `lowered_wf`, `backward_branch_lands_on_check` — for ALL programs and both variants of the lowering,
+  every loop body of the lowered code starts with the exit-code check, so every backward branch lands on it.
+* `check_free_segment_terminates` — in well-formed code with checked tail calls there is no infinite
+  execution without a check (well-founded measure; the explicit bound (L+2)^D of DESIGN.md is NOT proved).
+* `C07_liveness` — repaired variant (`tc = true`), all programs: every infinite execution performs
+  infinitely many checks; `C07_stops` — hence with the closed word set, every execution ends, and the
+  check that ends it yields the exit code stored in the word; `exit_code_for_cause`, `closed_after`,
+  `first_cause_wins` — that code is the one of the cause.
+* As-is variant (`tc = false`, the pinned tree): `tailcall_cycle_witness` / `C07_full_fails_as_is`
+  (finding F4: `(func $f (return_call $f))` runs forever without a check), and `C07_partial`
+  (programs without tail calls).
+Missing (assumed, see docs/C07.md): "promptly" in seconds, scheduling of the watcher goroutine, the
+machine code below the SSA, host functions that do not return.
+-/
+import Wz.Proofs.C07_Ctl
+
 namespace Wz.C07
+open Wz.Model.Ctl Wz.Gen.Close
+
+/-- An infinite execution: states, choices, and whether each step performed a check. -/
+def Exec (p : Prog) (D : Nat) (σ : Nat → Stack) (c : Nat → Nat) (e : Nat → Bool) : Prop :=
+  ∀ n, step p D (σ n) (c n) = some (σ (n + 1), e n)
+
+/-! ## where the checks are -/
+
+/-- Both variants, all programs: every loop body of the lowered code starts with a check. -/
+theorem lowered_wf (tc : Bool) (p : Prog) : wfProg false (lowerCtl tc p) = true :=
+  wfProg_lower tc false (by simp) p
+
+/-- Repaired variant, all programs: additionally every tail call is checked. -/
+theorem lowered_wf_repaired (p : Prog) : wfProg true (lowerCtl true p) = true :=
+  wfProg_lower true true (by simp) p
+
+/-- Every backward branch (a branch whose target label is a loop) lands on a check. -/
+theorem backward_branch_lands_on_check (req : Bool) (cur : Seq) (lbls : List Lbl) (rest : Stack)
+    (n : Nat) (b after : Seq) (ls : List Lbl) (hl : wfLbls req lbls = true)
+    (hd : lbls.drop n = .lp b after :: ls) :
+    ∃ fr', branch ⟨cur, lbls⟩ rest n = fr' :: rest ∧ startsWithCheck fr'.cur = true := by
+  have hw := wfLbls_drop req n lbls hl
+  rw [hd] at hw
+  simp only [wfLbls, wfLbl, Bool.and_eq_true] at hw
+  refine ⟨⟨b, .lp b after :: ls⟩, ?_, hw.1.1.1⟩
+  unfold branch
+  simp only [hd]
+
+-- non-vacuity (test on a sample): a loop nested in a block, branch depth 0 from inside the loop
+example : wfLbls false [.lp (.cons .check (.cons (.br 0) .nil)) .nil, .blk .nil] = true := by decide
+
+theorem init_wf (req : Bool) (p : Prog) (hp : wfProg req p = true) (f : Nat) :
+    wfStack req (initStack p f) = true := by
+  unfold initStack
+  split
+  · rename_i b hb
+    simp [wfStack, wfFrame, wfLbls, wfProg_get req p hp f b hb]
+  · simp [wfStack]
+
+/-! ## liveness -/
+
+/-- Well-formed code with checked tail calls: no infinite execution without a check, from any
+well-formed state, for any depth ceiling and any resolution of the nondeterminism. -/
+theorem check_free_segment_terminates (p : Prog) (D : Nat) (hp : wfProg true p = true)
+    (σ : Nat → Stack) (c : Nat → Nat) (h0 : wfStack true (σ 0) = true) :
+    ¬ (∀ n, step p D (σ n) (c n) = some (σ (n + 1), false)) :=
+  no_infinite_of_acc p D (σ 0) (acc_stack p D hp (σ 0) h0) σ c rfl
+
+theorem liveness_of_wf (p : Prog) (D : Nat) (hp : wfProg true p = true) (σ : Nat → Stack)
+    (c : Nat → Nat) (e : Nat → Bool) (h0 : wfStack true (σ 0) = true) (hex : Exec p D σ c e) :
+    ∀ n, ∃ m, n ≤ m ∧ e m = true := by
+  intro n
+  apply Classical.byContradiction
+  intro hne
+  have hall : ∀ m, n ≤ m → e m = false := by
+    intro m hm
+    cases hem : e m with
+    | false => rfl
+    | true => exact absurd ⟨m, hm, hem⟩ hne
+  have hwf := wf_along p D hp σ c e h0 hex n
+  apply check_free_segment_terminates p D hp (fun k => σ (n + k)) (fun k => c (n + k)) hwf
+  intro k
+  have := hex (n + k)
+  rw [hall (n + k) (by omega)] at this
+  exact this
+
+/-- Repaired variant, ALL programs, any entry function, depth ceiling and choices: every infinite
+execution performs infinitely many exit-code checks. -/
+theorem C07_liveness (p : Prog) (D f : Nat) (σ : Nat → Stack) (c : Nat → Nat) (e : Nat → Bool)
+    (h0 : σ 0 = initStack (lowerCtl true p) f) (hex : Exec (lowerCtl true p) D σ c e) :
+    ∀ n, ∃ m, n ≤ m ∧ e m = true :=
+  liveness_of_wf _ D (lowered_wf_repaired p) σ c e
+    (by rw [h0]; exact init_wf true _ (lowered_wf_repaired p) f) hex
+
+/-- As-is variant (the pinned tree): the same for programs WITHOUT tail calls.
+Full statement `∀ p, …` fails: see `C07_full_fails_as_is`. -/
+theorem C07_partial (p : Prog) (hnt : noTailProg p = true) (D f : Nat) (σ : Nat → Stack)
+    (c : Nat → Nat) (e : Nat → Bool) (h0 : σ 0 = initStack (lowerCtl false p) f)
+    (hex : Exec (lowerCtl false p) D σ c e) : ∀ n, ∃ m, n ≤ m ∧ e m = true :=
+  liveness_of_wf _ D (wfProg_lower_noTail false p hnt) σ c e
+    (by rw [h0]; exact init_wf true _ (wfProg_lower_noTail false p hnt) f) hex
+
+-- non-vacuity (tests on samples): a program with a loop, a recursive call and an indirect call meets `noTailProg`;
+-- an infinite execution exists for it (the loop), so the conclusion is not vacuous.
+def sampleLoop : Prog := { funcs := [.cons (.loop (.cons .op (.cons (.br 0) .nil))) .nil], table := [0] }
+example : noTailProg sampleLoop = true := by decide
+example : wfProg true (lowerCtl false sampleLoop) = true := by decide
+example : ∃ s1 s2 s3 s4, step (lowerCtl false sampleLoop) 3 (initStack (lowerCtl false sampleLoop) 0) 0 = some (s1, false)
+    ∧ step (lowerCtl false sampleLoop) 3 s1 0 = some (s2, true) ∧ step (lowerCtl false sampleLoop) 3 s2 0 = some (s3, false)
+    ∧ step (lowerCtl false sampleLoop) 3 s3 0 = some (s4, false) ∧ step (lowerCtl false sampleLoop) 3 s4 0 = some (s2, true) :=
+  ⟨_, _, _, _, rfl, rfl, rfl, rfl, rfl⟩
+
+/-! ## finding F4: the as-is lowering leaves tail-call cycles unchecked -/
+
+/-- `(func $f (return_call $f))` -/
+def witness : Prog := { funcs := [.cons (.returnCall false 0) .nil], table := [] }
+
+theorem tailcall_cycle_witness (D : Nat) :
+    ∃ (σ : Nat → Stack) (c : Nat → Nat), σ 0 = initStack (lowerCtl false witness) 0 ∧
+      ∀ n, step (lowerCtl false witness) D (σ n) (c n) = some (σ (n + 1), false) :=
+  ⟨fun _ => initStack (lowerCtl false witness) 0, fun _ => 0, rfl, fun _ => rfl⟩
+
+/-- The full-strength statement is false for the as-is lowering. -/
+theorem C07_full_fails_as_is :
+    ¬ (∀ (p : Prog) (D f : Nat) (σ : Nat → Stack) (c : Nat → Nat) (e : Nat → Bool),
+        σ 0 = initStack (lowerCtl false p) f → Exec (lowerCtl false p) D σ c e →
+        ∀ n, ∃ m, n ≤ m ∧ e m = true) := by
+  intro h
+  obtain ⟨σ, c, h0, hall⟩ := tailcall_cycle_witness 1
+  obtain ⟨m, _, hm⟩ := h witness 1 0 σ c (fun _ => false) h0 hall 0
+  cases hm
+
+/-- …and the repaired lowering does check the witness. -/
+example : step (lowerCtl true witness) 1 (initStack (lowerCtl true witness) 0) 0
+    = some (initStack (lowerCtl true witness) 0, true) := rfl
+
+/-! ## the closed word: which exit code a stopped call returns -/
+
+theorem word_facts (code : BitVec 32) (flag : BitVec 64) (hf0 : flag.toNat ≠ 0)
+    (hf : flag.toNat < 2 ^ 32) :
+    (flag ||| ((code.setWidth 64) <<< 32)) ≠ 0#64 ∧
+    ((flag ||| ((code.setWidth 64) <<< 32)) >>> 32).setWidth 32 = code := by
+  have hx := code.isLt
+  have hw : (flag ||| ((code.setWidth 64) <<< 32)).toNat = code.toNat * 2 ^ 32 + flag.toNat := by
+    rw [BitVec.toNat_or, BitVec.toNat_shiftLeft, BitVec.toNat_setWidth]
+    have h1 : code.toNat % 2 ^ 64 = code.toNat := Nat.mod_eq_of_lt (by omega)
+    rw [h1, Nat.shiftLeft_eq]
+    have h2 : code.toNat * 2 ^ 32 % 2 ^ 64 = code.toNat * 2 ^ 32 := Nat.mod_eq_of_lt (by omega)
+    rw [h2, Nat.or_comm, ← Nat.shiftLeft_eq, ← Nat.shiftLeft_add_eq_or_of_lt hf, Nat.shiftLeft_eq]
+  constructor
+  · intro h0
+    have := congrArg BitVec.toNat h0
+    rw [hw] at this
+    simp at this
+    omega
+  · apply BitVec.eq_of_toNat_eq
+    rw [BitVec.toNat_setWidth, BitVec.toNat_ushiftRight, hw, Nat.shiftRight_eq_div_pow]
+    omega
+
+theorem flag_facts (watcher : Bool) : (Cause.flag watcher).toNat ≠ 0 ∧ (Cause.flag watcher).toNat < 2 ^ 32 := by
+  cases watcher <;> decide
+
+/-- cancel → ExitCodeContextCanceled, deadline → ExitCodeDeadlineExceeded, CloseWithExitCode(c) → c
+(for every 32-bit c, on both the watcher path and the direct path), read back by `FailIfClosed`. -/
+theorem exit_code_for_cause (cause : Cause) (watcher : Bool) :
+    failIfClosed (fire 0#64 cause watcher) = some cause.code := by
+  have hf := flag_facts watcher
+  have hw := word_facts cause.code (Cause.flag watcher) hf.1 hf.2
+  simp only [fire, setExitCode, failIfClosed, if_true]
+  rw [if_neg hw.1, hw.2]
+
+/-- The constants are the documented ones (regenerated from sys/error.go on every run). -/
+theorem cause_codes : Cause.canceled.code = 0xffffffff#32 ∧ Cause.deadline.code = 0xefffffff#32
+    ∧ ∀ c, (Cause.closeWith c).code = c := by
+  refine ⟨by decide, by decide, fun _ => rfl⟩
+
+/-- After any cause fired the module is closed (also for exit code 0). -/
+theorem closed_after (cause : Cause) (watcher : Bool) : isClosed (fire 0#64 cause watcher) = true := by
+  have hf := flag_facts watcher
+  have hw := word_facts cause.code (Cause.flag watcher) hf.1 hf.2
+  simp only [fire, setExitCode, isClosed, if_true]
+  simpa using hw.1
+
+/-- The first cause wins: a closed word is never overwritten. -/
+theorem first_cause_wins (closed : BitVec 64) (h : closed ≠ 0#64) (cause : Cause) (watcher : Bool) :
+    fire closed cause watcher = closed := by
+  simp [fire, setExitCode, h]
+
+/-! ## putting it together: a closed module stops the call, with the stored exit code -/
+
+/-- Well-formed code with checked tail calls, closed word set: every execution of the call ends
+(no infinite run of continuing steps), for any state it was in when the word was set. -/
+theorem C07_stops (p : Prog) (D : Nat) (hp : wfProg true p = true) (w : BitVec 64) (code : BitVec 32)
+    (hw : failIfClosed w = some code) (σ : Nat → Stack) (c : Nat → Nat)
+    (h0 : wfStack true (σ 0) = true) :
+    ¬ (∀ n, ∃ e, stepC p D w (σ n) (c n) = some (.inl (σ (n + 1), e))) := by
+  intro hall
+  apply check_free_segment_terminates p D hp σ c h0
+  intro n
+  obtain ⟨e, he⟩ := hall n
+  unfold stepC at he
+  split at he
+  · simp at he
+  · rw [hw] at he; simp at he
+  · rename_i st' hstep
+    simp only [Option.some.injEq, Sum.inl.injEq, Prod.mk.injEq] at he
+    rw [hstep, he.1]
+
+/-- …and when a check ends it, the error carries exactly the code stored in the closed word. -/
+theorem C07_stop_code (p : Prog) (D : Nat) (w : BitVec 64) (st : Stack) (c : Nat) (code : BitVec 32)
+    (h : stepC p D w st c = some (.inr code)) : failIfClosed w = some code := by
+  unfold stepC at h
+  split at h
+  · simp at h
+  · split at h
+    · rename_i code' hc
+      simp only [Option.some.injEq, Sum.inr.injEq] at h
+      rw [hc, h]
+    · simp at h
+  · simp at h
+
+-- non-vacuity (test on a sample): the repaired lowering of the F4 witness, closed by a cancelled context,
+-- stops at its first step with ExitCodeContextCanceled.
+example : stepC (lowerCtl true witness) 1 (fire 0#64 .canceled true) (initStack (lowerCtl true witness) 0) 0
+    = some (.inr 0xffffffff#32) := rfl
+
 end Wz.C07
